@@ -163,21 +163,17 @@ namespace Iora.Ws
 open Iora Iora.Framing
 
 /-- what the server does with one parse outcome (one iteration of the `onUpgradedData` loop) -/
-def interp1 (max : Nat) (s : Sess) : PRes → Sess × List Ev
-  | .frame f _ => handleFrame max s f
-  | .protocolError =>
-    let (s2, ev) := sendClose s 1002 (str "Protocol error")
-    (erase s2, ev ++ [.onError, .closeSession])
-  | .tooLarge =>
-    let (s2, ev) := sendClose s 1009 (str "Message Too Big")
-    (erase s2, ev ++ [.onError, .closeSession])
+def interp1 (max : Nat) (cb : Cbs) (s : Sess) : PRes → Sess × List Ev
+  | .frame f _ => handleFrame max cb s f
+  | .protocolError => failSession cb s 1002 (str "Protocol error")
+  | .tooLarge => failSession cb s 1009 (str "Message Too Big")
   | .incomplete => (s, [])
 
-def interp (max : Nat) : Sess → List PRes → Sess × List Ev
+def interp (max : Nat) (cb : Cbs) : Sess → List PRes → Sess × List Ev
   | s, [] => (s, [])
   | s, r :: rs =>
-    let (s1, e1) := interp1 max s r
-    let (s2, e2) := interp max s1 rs
+    let (s1, e1) := interp1 max cb s r
+    let (s2, e2) := interp max cb s1 rs
     (s2, e1 ++ e2)
 
 def carryOpt : Carry → Option Bytes
@@ -185,9 +181,9 @@ def carryOpt : Carry → Option Bytes
   | .dead => none
 
 /-- the parse loop of `onUpgradedData` is: greedy framing, then the per-frame handler folded over the frames -/
-theorem loop_eq_interp (max : Nat) : ∀ (fuel : Nat) (s : Sess) (d : Bytes),
-    loop max fuel s d =
-      ((interp max s (drainF (wsStable max) fuel d).1).1, (interp max s (drainF (wsStable max) fuel d).1).2,
+theorem loop_eq_interp (max : Nat) (cb : Cbs) : ∀ (fuel : Nat) (s : Sess) (d : Bytes),
+    loop max cb fuel s d =
+      ((interp max cb s (drainF (wsStable max) fuel d).1).1, (interp max cb s (drainF (wsStable max) fuel d).1).2,
         carryOpt (drainF (wsStable max) fuel d).2) := by
   intro fuel
   induction fuel with
@@ -210,8 +206,9 @@ theorem loop_eq_interp (max : Nat) : ∀ (fuel : Nat) (s : Sess) (d : Bytes),
         rw [ih]
         simp [interp, interp1, wsStable, pws]
 
-theorem interp_append (max : Nat) : ∀ (a b : List PRes) (s : Sess),
-    interp max s (a ++ b) = ((interp max (interp max s a).1 b).1, (interp max s a).2 ++ (interp max (interp max s a).1 b).2) := by
+theorem interp_append (max : Nat) (cb : Cbs) : ∀ (a b : List PRes) (s : Sess),
+    interp max cb s (a ++ b) =
+      ((interp max cb (interp max cb s a).1 b).1, (interp max cb s a).2 ++ (interp max cb (interp max cb s a).1 b).2) := by
   intro a
   induction a with
   | nil => intro b s; simp [interp]
@@ -286,35 +283,18 @@ theorem drainF_good (max : Nat) : ∀ (fuel : Nat) (d : Bytes), d.length < fuel 
         simp [toP, h2]
       · rw [h1, ← hd, e2]; simp [stream, List.flatMap_cons, hd, h2]
 
-theorem handleFrame_alive (max : Nat) (s : Sess) (f : Frame) (ha : s.alive = true) (h8 : f.opcode ≠ 8) :
-    (handleFrame max s f).1.alive = true := by
-  unfold handleFrame handleDataFrame sendClose
-  simp only
-  repeat' split
-  all_goals simp_all
-
-theorem interp_alive (max : Nat) : ∀ (fs : List Frame) (s : Sess), s.alive = true → (∀ f ∈ fs, f.opcode ≠ 8) →
-    (interp max s (fs.map toP)).1.alive = true := by
-  intro fs
-  induction fs with
-  | nil => intro s h _; simpa [interp] using h
-  | cons f fs ih =>
-    intro s h h8
-    simp only [List.map_cons, interp, toP, interp1]
-    exact ih _ (handleFrame_alive max s f h (h8 f (List.mem_cons_self ..))) (fun g hg => h8 g (List.mem_cons_of_mem _ hg))
-
-theorem interp_buffer (max : Nat) : ∀ (fs : List Frame) (s : Sess), s.buffer = [] →
-    (interp max s (fs.map toP)).1.buffer = [] := by
+theorem interp_buffer (max : Nat) (cb : Cbs) : ∀ (fs : List Frame) (s : Sess), s.buffer = [] →
+    (interp max cb s (fs.map toP)).1.buffer = [] := by
   intro fs
   induction fs with
   | nil => intro s h; simpa [interp] using h
   | cons f fs ih =>
     intro s h
     simp only [List.map_cons, interp, toP, interp1]
-    exact ih _ (handleFrame_buffer max s f h)
+    exact ih _ (handleFrame_buffer max cb s f h)
 
-theorem run_dead (max : Nat) : ∀ (ss : List Bytes) (s : Sess), s.alive = false →
-    run max s (ss.map AppOp.data) = (s, []) := by
+theorem run_dead (max : Nat) (cb : Cbs) : ∀ (ss : List Bytes) (s : Sess), s.alive = false →
+    run max cb s (ss.map AppOp.data) = (s, []) := by
   intro ss
   induction ss with
   | nil => intro s _; rfl
@@ -326,20 +306,25 @@ theorem run_dead (max : Nat) : ∀ (ss : List Bytes) (s : Sess), s.alive = false
 /-- the peer sends a CLOSE frame only as its last frame (RFC 6455 §5.5.1) -/
 def CloseOnlyLast (fs : List Frame) : Prop := ∀ pre f post, fs = pre ++ f :: post → f.opcode = 8 → post = []
 
+/-- only the LAST frame of the stream may end the session (the peer's CLOSE, or the fragment that makes a message
+exceed the limit): every frame is handled by a session that still exists -/
+def LiveUntilLast (max : Nat) (cb : Cbs) (s : Sess) (fs : List Frame) : Prop :=
+  ∀ pre f post, fs = pre ++ f :: post → post ≠ [] → (interp max cb s ((pre ++ [f]).map toP)).1.alive = true
+
 end Iora.Ws
 
 namespace Iora.Ws
 open Iora Iora.Framing
 
-theorem onData_eq (max : Nat) (s : Sess) (data : Bytes) (ha : s.alive = true) :
-    onData max s data =
+theorem onData_eq (max : Nat) (cb : Cbs) (s : Sess) (data : Bytes) (ha : s.alive = true) :
+    onData max cb s data =
       (match carryOpt (drain (wsStable max) (s.buffer ++ data)).2 with
         | some rest =>
-          if (interp max { s with buffer := [] } (drain (wsStable max) (s.buffer ++ data)).1).1.alive
-          then { (interp max { s with buffer := [] } (drain (wsStable max) (s.buffer ++ data)).1).1 with buffer := rest }
-          else (interp max { s with buffer := [] } (drain (wsStable max) (s.buffer ++ data)).1).1
-        | none => (interp max { s with buffer := [] } (drain (wsStable max) (s.buffer ++ data)).1).1,
-       (interp max { s with buffer := [] } (drain (wsStable max) (s.buffer ++ data)).1).2) := by
+          if (interp max cb { s with buffer := [] } (drain (wsStable max) (s.buffer ++ data)).1).1.alive
+          then { (interp max cb { s with buffer := [] } (drain (wsStable max) (s.buffer ++ data)).1).1 with buffer := rest }
+          else (interp max cb { s with buffer := [] } (drain (wsStable max) (s.buffer ++ data)).1).1
+        | none => (interp max cb { s with buffer := [] } (drain (wsStable max) (s.buffer ++ data)).1).1,
+       (interp max cb { s with buffer := [] } (drain (wsStable max) (s.buffer ++ data)).1).2) := by
   unfold onData
   simp only [ha, Bool.not_true, Bool.false_eq_true, ↓reduceIte]
   rw [loop_eq_interp]
@@ -350,21 +335,19 @@ theorem closeOnlyLast_suffix (a b : List Frame) (h : CloseOnlyLast (a ++ b)) : C
   intro pre f post he h8
   exact h (a ++ pre) f post (by rw [he, List.append_assoc]) h8
 
-theorem closeOnlyLast_split (a b : List Frame) (h : CloseOnlyLast (a ++ b)) (hc : ∃ f ∈ a, f.opcode = 8) : b = [] := by
-  obtain ⟨f, hf, h8⟩ := hc
-  obtain ⟨p, q, hpq⟩ := List.append_of_mem hf
-  have := h p f (q ++ b) (by rw [hpq]; simp) h8
-  simpa using (List.append_eq_nil_iff.mp this).2
-
-/-- **Server-level segmentation independence (generalised to a session with a carried remainder).** -/
-theorem run_data_eq (max : Nat) : ∀ (ss : List Bytes) (s : Sess) (fs : List Frame),
-    ValidFrames max fs → CloseOnlyLast fs → s.alive = true → s.buffer ++ ss.flatten = stream fs →
+/-- **The receive path as a function of the frames (generalised to a session with a carried remainder).**
+Whatever the segmentation, the reads process a PREFIX `fsA` of the frame list exactly as the per-frame handler folded
+over it; the rest `fsB` is non-empty only if the session ended inside `fsA` (later reads are then ignored). -/
+theorem run_data_split (max : Nat) (cb : Cbs) : ∀ (ss : List Bytes) (s : Sess) (fs : List Frame),
+    ValidFrames max fs → s.alive = true → s.buffer ++ ss.flatten = stream fs →
     parse max s.buffer = .incomplete →
-    (run max s (ss.map AppOp.data)).2 = (interp max { s with buffer := [] } (fs.map toP)).2 := by
+    ∃ fsA fsB, fs = fsA ++ fsB ∧
+      (run max cb s (ss.map AppOp.data)).2 = (interp max cb { s with buffer := [] } (fsA.map toP)).2 ∧
+      (fsB = [] ∨ (interp max cb { s with buffer := [] } (fsA.map toP)).1.alive = false) := by
   intro ss
   induction ss with
   | nil =>
-    intro s fs hv hcl ha hb hinc
+    intro s fs hv ha hb hinc
     simp only [List.flatten_nil, List.append_nil] at hb
     -- the buffer is a whole stream and is incomplete: the stream is empty
     have : fs = [] := by
@@ -376,9 +359,9 @@ theorem run_data_eq (max : Nat) : ∀ (ss : List Bytes) (s : Sess) (fs : List Fr
         simp only [stream, List.flatMap_cons] at hb hrt
         rw [hb, hrt] at hinc; cases hinc
     subst this
-    simp [run, interp]
+    exact ⟨[], [], rfl, by simp [run, interp], .inl rfl⟩
   | cons seg ss ih =>
-    intro s fs hv hcl ha hb hinc
+    intro s fs hv ha hb hinc
     simp only [List.flatten_cons, ← List.append_assoc] at hb
     have hgood : Good max (s.buffer ++ seg ++ ss.flatten) := hb ▸ good_stream max fs hv
     have hgd : Good max (s.buffer ++ seg) := (wsStable max).g_prefix _ _ hgood
@@ -401,44 +384,233 @@ theorem run_data_eq (max : Nat) : ∀ (ss : List Bytes) (s : Sess) (fs : List Fr
     simp only [List.append_nil] at f2
     -- this read
     simp only [List.map_cons, run, step]
-    rw [onData_eq max s seg ha, hd1]
+    rw [onData_eq max cb s seg ha, hd1]
     simp only [carryOpt]
-    have hbuf := interp_buffer max fs1 { s with buffer := [] } rfl
+    have hbuf := interp_buffer max cb fs1 { s with buffer := [] } rfl
     have hv2 : ValidFrames max fs2 := fun f hf => hv f (by rw [hfs]; exact List.mem_append_right _ hf)
-    have hcl2 : CloseOnlyLast fs2 := closeOnlyLast_suffix fs1 fs2 (hfs ▸ hcl)
-    have hali := interp_alive max fs1 { s with buffer := [] } ha
-    rw [hfs, List.map_append, interp_append]
-    generalize interp max { s with buffer := [] } (fs1.map toP) = I at hbuf hali ⊢
+    generalize hI : interp max cb { s with buffer := [] } (fs1.map toP) = I at hbuf ⊢
     obtain ⟨s1, ev1⟩ := I
     obtain ⟨al, bf, fb, fo, cs⟩ := s1
-    simp only at hbuf hali ⊢
+    simp only at hbuf ⊢
     subst hbuf
-    congr 1
     cases al with
     | true =>
       simp only [↓reduceIte]
-      exact ih { alive := true, buffer := rest1, fragBuf := fb, fragOp := fo, closeSent := cs } fs2 hv2 hcl2 rfl f2 e3
+      obtain ⟨fsA, fsB, g1, g2, g3⟩ := ih { alive := true, buffer := rest1, fragBuf := fb, fragOp := fo, closeSent := cs } fs2 hv2 rfl f2 e3
+      refine ⟨fs1 ++ fsA, fsB, by rw [hfs, g1, List.append_assoc], ?_, ?_⟩
+      · rw [List.map_append, interp_append, hI]
+        simp only
+        rw [g2]
+      · rw [List.map_append, interp_append, hI]
+        exact g3
     | false =>
       simp only [Bool.false_eq_true, ↓reduceIte]
-      rw [run_dead max ss _ rfl]
-      have hc : ∃ f ∈ fs1, f.opcode = 8 := by
-        apply Classical.byContradiction
-        intro hno
-        have : ∀ f ∈ fs1, f.opcode ≠ 8 := fun f hf h8 => hno ⟨f, hf, h8⟩
-        exact absurd (hali this) (by simp)
-      have : fs2 = [] := closeOnlyLast_split fs1 fs2 (hfs ▸ hcl) hc
-      subst this
-      simp [interp]
+      rw [run_dead max cb ss _ rfl]
+      exact ⟨fs1, fs2, hfs, by simp [hI], .inr (by rw [hI])⟩
+
+/-- **Server-level segmentation independence**: if every frame reaches a session that still exists, the events of
+the reads are exactly the per-frame handler folded over the frame list. -/
+theorem run_data_eq (max : Nat) (cb : Cbs) (ss : List Bytes) (s : Sess) (fs : List Frame)
+    (hv : ValidFrames max fs) (hl : LiveUntilLast max cb { s with buffer := [] } fs) (ha : s.alive = true)
+    (hb : s.buffer ++ ss.flatten = stream fs) (hinc : parse max s.buffer = .incomplete) :
+    (run max cb s (ss.map AppOp.data)).2 = (interp max cb { s with buffer := [] } (fs.map toP)).2 := by
+  obtain ⟨fsA, fsB, g1, g2, g3⟩ := run_data_split max cb ss s fs hv ha hb hinc
+  rcases g3 with g3 | g3
+  · subst g3; rw [g2, g1]; simp
+  · -- the session ended inside `fsA`; by hypothesis that can only be at the very last frame
+    by_cases hB : fsB = []
+    · subst hB; rw [g2, g1]; simp
+    · exfalso
+      have hA : fsA ≠ [] := by
+        intro h; subst h
+        simp [interp, ha] at g3
+      obtain ⟨pre, f, rfl⟩ : ∃ pre f, fsA = pre ++ [f] := ⟨fsA.dropLast, fsA.getLast hA, (List.dropLast_concat_getLast hA).symm⟩
+      have := hl pre f fsB (by rw [g1]; simp) hB
+      rw [this] at g3; cases g3
 
 end Iora.Ws
 
 namespace Iora.Ws
 open Iora Iora.Framing
 
-/-- what the application (or the wire) sees for one complete message -/
-def deliverEv (op : Nat) (pl : Bytes) : List Ev :=
-  if op = 1 then (if isValidUtf8 pl then [.text pl] else [.sent (serialize (makeClose 1007 (str "Invalid UTF-8")))])
-  else [.binary pl]
+/-! ### when does every frame reach a live session: CLOSE last, and every (partial) message within the limit -/
+
+/-- size of the fragment buffer after the locked part of `handleDataFrame` -/
+def accLen (cur : Nat) (f : Frame) : Nat :=
+  if f.opcode = 1 || f.opcode = 2 then f.payload.length else if f.opcode = 0 then cur + f.payload.length else cur
+
+def isDataOp (f : Frame) : Bool := f.opcode = 0 || f.opcode = 1 || f.opcode = 2
+
+/-- every message of the stream, complete or not, stays within `max` while it is being reassembled
+(`cur` = bytes of the current message already received) -/
+def fitsFrom (max : Nat) : Nat → List Frame → Bool
+  | _, [] => true
+  | cur, f :: r => decide (accLen cur f ≤ max) && fitsFrom max (if isDataOp f && f.fin then 0 else accLen cur f) r
+
+theorem accumulate_len (s : Sess) (f : Frame) : (accumulate s f).fragBuf.length = accLen s.fragBuf.length f := by
+  unfold accumulate accLen
+  split
+  · rfl
+  · split <;> simp
+
+theorem accumulate_nondata (s : Sess) (f : Frame) (h : isDataOp f = false) : accumulate s f = s := by
+  unfold accumulate
+  unfold isDataOp at h
+  simp only [Bool.or_eq_false_iff, decide_eq_false_iff_not] at h
+  simp [h.1.2, h.2, h.1.1]
+
+theorem handleFrame_live (max : Nat) (cb : Cbs) (s : Sess) (f : Frame) (ha : s.alive = true) (h8 : f.opcode ≠ 8)
+    (hfit : accLen s.fragBuf.length f ≤ max) :
+    (handleFrame max cb s f).1.alive = true ∧
+    (handleFrame max cb s f).1.fragBuf.length = (if isDataOp f && f.fin then 0 else accLen s.fragBuf.length f) := by
+  unfold handleFrame
+  split
+  · rename_i hd
+    have hdo : isDataOp f = true := by
+      unfold isDataOp
+      simp only [Bool.or_eq_true, decide_eq_true_eq] at hd ⊢
+      rcases hd with (h | h) | h
+      · exact .inl (.inr h)
+      · exact .inr h
+      · exact .inl (.inl h)
+    unfold handleDataFrame
+    simp only [ha, Bool.not_true, Bool.false_eq_true, ↓reduceIte, hdo, Bool.true_and]
+    have hng : ¬ (accumulate s f).fragBuf.length > max := by rw [accumulate_len]; omega
+    simp only [hng, ↓reduceIte]
+    split
+    · obtain ⟨h1, _, h3, _⟩ := deliver_same cb { accumulate s f with fragBuf := [], fragOp := 0 } (accumulate s f).fragOp (accumulate s f).fragBuf
+      exact ⟨by rw [h1]; simpa using ha, by rw [h3]; rfl⟩
+    · exact ⟨by simpa using ha, accumulate_len s f⟩
+  · rename_i hd
+    have hdo : isDataOp f = false := by
+      unfold isDataOp
+      simp only [Bool.or_eq_true, decide_eq_true_eq, not_or] at hd
+      simp [hd.1.1, hd.1.2, hd.2]
+    have hacc : accLen s.fragBuf.length f = s.fragBuf.length := by
+      rw [← accumulate_len, accumulate_nondata s f hdo]
+    simp only [hdo, Bool.false_and, Bool.false_eq_true, ↓reduceIte, hacc]
+    split
+    · exact ⟨ha, rfl⟩
+    · split
+      · exact ⟨ha, rfl⟩
+      · simp only [h8, ↓reduceIte]
+        obtain ⟨h1, _, h3, _⟩ := fire_same (sendClose s 1002 (str "Unsupported opcode")).1 .onError cb.onError
+        exact ⟨by rw [h1]; exact ha, by rw [h3]; rfl⟩
+
+theorem closeOnlyLast_tail (f : Frame) (r : List Frame) (h : CloseOnlyLast (f :: r)) : CloseOnlyLast r :=
+  closeOnlyLast_suffix [f] r h
+
+/-- a stream whose CLOSE (if any) is last and whose messages all fit keeps the session alive up to its last frame -/
+theorem liveUntilLast_of_fits (max : Nat) (cb : Cbs) : ∀ (fs : List Frame) (s : Sess), s.alive = true →
+    CloseOnlyLast fs → fitsFrom max s.fragBuf.length fs = true → LiveUntilLast max cb s fs := by
+  intro fs
+  induction fs with
+  | nil => intro s _ _ _ pre f post he; simp at he
+  | cons f r ih =>
+    intro s ha hcl hfit pre f' post he hpost
+    simp only [fitsFrom, Bool.and_eq_true, decide_eq_true_eq] at hfit
+    obtain ⟨hfit1, hfit2⟩ := hfit
+    have hrne : r ≠ [] := by
+      cases pre with
+      | nil => simp at he; rw [he.2]; exact hpost
+      | cons p pre' => simp at he; rw [he.2]; simp
+    have h8 : f.opcode ≠ 8 := fun h => hrne (hcl [] f r rfl h)
+    obtain ⟨l1, l2⟩ := handleFrame_live max cb s f ha h8 hfit1
+    cases pre with
+    | nil =>
+      simp only [List.nil_append, List.cons.injEq] at he
+      obtain ⟨rfl, _⟩ := he
+      simpa [interp, interp1, toP] using l1
+    | cons p pre' =>
+      simp only [List.cons_append, List.cons.injEq] at he
+      obtain ⟨rfl, he2⟩ := he
+      have := ih (handleFrame max cb s f).1 l1 (closeOnlyLast_tail f r hcl) (by rw [l2]; simpa [Bool.and_eq_true] using hfit2) pre' f' post he2 hpost
+      simpa [interp, interp1, toP] using this
+
+/-! ### what is DELIVERED (messages handed to the application) does not even need the session to survive -/
+
+def isDelivery : Ev → Bool
+  | .text _ => true
+  | .binary _ => true
+  | _ => false
+
+/-- the messages handed to the application, in order -/
+def msgs (evs : List Ev) : List Ev := evs.filter isDelivery
+
+@[simp] theorem msgs_nil : msgs [] = [] := rfl
+@[simp] theorem msgs_append (a b : List Ev) : msgs (a ++ b) = msgs a ++ msgs b := by simp [msgs]
+
+theorem sendStep_msgs (s : Sess) (a : Send) : msgs (sendStep s a).2 = [] := by
+  cases a <;> simp only [sendStep, appSend, sendPing, sendClose] <;> (repeat' split) <;> simp [msgs, isDelivery]
+
+theorem runSends_msgs : ∀ (as : List Send) (s : Sess), msgs (runSends s as).2 = [] := by
+  intro as
+  induction as with
+  | nil => intro s; rfl
+  | cons a as ih => intro s; simp [runSends, sendStep_msgs, ih]
+
+theorem fire_msgs (s : Sess) (e : Ev) (sc : List Send) : msgs (fire s e sc).2 = msgs [e] := by
+  simp only [fire]
+  have : e :: (runSends s sc).2 = [e] ++ (runSends s sc).2 := rfl
+  rw [this, msgs_append, runSends_msgs]; simp
+
+@[simp] theorem sendClose_msgs (s : Sess) (c : Nat) (r : Bytes) : msgs (sendClose s c r).2 = [] := by
+  simp [sendClose, msgs, isDelivery]
+
+theorem failSession_msgs (cb : Cbs) (s : Sess) (c : Nat) (r : Bytes) : msgs (failSession cb s c r).2 = [] := by
+  simp only [failSession, msgs_append, sendClose_msgs, fire_msgs]
+  simp [msgs, isDelivery]
+
+theorem handleFrame_dead (max : Nat) (cb : Cbs) (s : Sess) (f : Frame) (ha : s.alive = false) :
+    (handleFrame max cb s f).1.alive = false ∧ msgs (handleFrame max cb s f).2 = [] := by
+  unfold handleFrame
+  split
+  · simp [handleDataFrame, ha]
+  · split
+    · exact ⟨ha, by simp [msgs, isDelivery]⟩
+    · split
+      · exact ⟨ha, rfl⟩
+      · split
+        · simp only
+          refine ⟨rfl, ?_⟩
+          simp only [ha, Bool.false_and, Bool.false_eq_true, ↓reduceIte, msgs_append, fire_msgs]
+          simp [msgs, isDelivery]
+        · simp only
+          refine ⟨?_, ?_⟩
+          · rw [(fire_same _ _ _).1]; exact ha
+          · simp only [msgs_append, sendClose_msgs, fire_msgs]
+            simp [msgs, isDelivery]
+
+theorem interp_dead (max : Nat) (cb : Cbs) : ∀ (fs : List Frame) (s : Sess), s.alive = false →
+    msgs (interp max cb s (fs.map toP)).2 = [] := by
+  intro fs
+  induction fs with
+  | nil => intro s _; rfl
+  | cons f fs ih =>
+    intro s ha
+    obtain ⟨h1, h2⟩ := handleFrame_dead max cb s f ha
+    simp only [List.map_cons, interp, toP, interp1, msgs_append, h2, List.nil_append]
+    exact ih _ h1
+
+/-- **Delivered messages are segmentation independent for EVERY stream of valid frames** — no assumption on where the
+peer's CLOSE is or on message sizes: frames that follow the end of the session deliver nothing, in the same read or later. -/
+theorem run_msgs_eq (max : Nat) (cb : Cbs) (ss : List Bytes) (s : Sess) (fs : List Frame)
+    (hv : ValidFrames max fs) (ha : s.alive = true) (hb : s.buffer ++ ss.flatten = stream fs)
+    (hinc : parse max s.buffer = .incomplete) :
+    msgs (run max cb s (ss.map AppOp.data)).2 = msgs (interp max cb { s with buffer := [] } (fs.map toP)).2 := by
+  obtain ⟨fsA, fsB, g1, g2, g3⟩ := run_data_split max cb ss s fs hv ha hb hinc
+  rw [g2, g1, List.map_append, interp_append]
+  simp only [msgs_append]
+  rcases g3 with g3 | g3
+  · subst g3; simp [interp]
+  · rw [interp_dead max cb fsB _ g3]; simp
+
+end Iora.Ws
+
+namespace Iora.Ws
+open Iora Iora.Framing
+
+/-! ### reassembly -/
 
 /-- the pongs owed for the pings among some frames, in order -/
 def pongsOf : List Frame → List Ev
@@ -454,38 +626,166 @@ inductive Tail : Bytes → List Frame → Prop where
   | ctl (c : Frame) (acc : Bytes) (rest : List Frame) : (c.opcode = 9 ∨ c.opcode = 10) → Tail acc rest →
       Tail acc (c :: rest)
 
+/-- the session once the message has been taken out of the fragment buffer -/
+def cleared (s : Sess) : Sess := { s with fragBuf := [], fragOp := 0 }
+
+theorem handleFrame_cont (max : Nat) (cb : Cbs) (s : Sess) (f : Frame) (ha : s.alive = true) (h0 : f.opcode = 0)
+    (hl : (s.fragBuf ++ f.payload).length ≤ max) :
+    handleFrame max cb s f =
+      if f.fin then deliver cb (cleared s) s.fragOp (s.fragBuf ++ f.payload)
+      else ({ s with fragBuf := s.fragBuf ++ f.payload }, []) := by
+  have hgt : ¬ max < s.fragBuf.length + f.payload.length := by simp at hl; omega
+  simp [handleFrame, handleDataFrame, accumulate, h0, ha, hgt, cleared]
+
+theorem handleFrame_start (max : Nat) (cb : Cbs) (s : Sess) (f : Frame) (ha : s.alive = true)
+    (hop : f.opcode = 1 ∨ f.opcode = 2) (hl : f.payload.length ≤ max) :
+    handleFrame max cb s f =
+      if f.fin then deliver cb (cleared s) f.opcode f.payload
+      else ({ s with fragOp := f.opcode, fragBuf := f.payload }, []) := by
+  have hgt : ¬ max < f.payload.length := by omega
+  rcases hop with h | h <;> simp [handleFrame, handleDataFrame, accumulate, h, ha, hgt, cleared]
+
 /-- **Reassembly.** In a live session that is in the middle of a message (`fragOp = op`, `fragBuf = b`), any tail of
 continuation fragments with interleaved pings/pongs yields exactly: one pong per ping (same payload, in order) and then
 ONE delivery of the in-order concatenation — as text only if it is valid UTF-8 (else close 1007) — provided the message
-fits the limit.  Control frames do not disturb the fragment buffer. -/
-theorem reassembly_tail (max : Nat) (op : Nat) (hop : op = 1 ∨ op = 2) :
-    ∀ (fs : List Frame) (acc : Bytes), Tail acc fs → ∀ (s : Sess), s.alive = true → s.fragOp = op →
+fits the limit.  Control frames do not disturb the fragment buffer. The session ends up with an empty fragment buffer. -/
+theorem reassembly_tail (max : Nat) (cb : Cbs) :
+    ∀ (fs : List Frame) (acc : Bytes), Tail acc fs → ∀ (s : Sess), s.alive = true →
       (s.fragBuf ++ acc).length ≤ max →
-      (interp max s (fs.map toP)).2 = pongsOf fs ++ deliverEv op (s.fragBuf ++ acc) := by
+      interp max cb s (fs.map toP) =
+        ((deliver cb (cleared s) s.fragOp (s.fragBuf ++ acc)).1,
+         pongsOf fs ++ (deliver cb (cleared s) s.fragOp (s.fragBuf ++ acc)).2) := by
   intro fs acc ht
   induction ht with
   | last f h0 hfin =>
-    intro s ha hfo hlen
-    have hgt : ¬ max < s.fragBuf.length + f.payload.length := by simp at hlen; omega
-    rcases hop with hop | hop <;> subst hop
-    · by_cases hu : isValidUtf8 (s.fragBuf ++ f.payload) = true
-      · simp [interp, interp1, toP, handleFrame, handleDataFrame, h0, hfin, ha, hfo, pongsOf, deliverEv, hgt, hu]
-      · simp [interp, interp1, toP, handleFrame, handleDataFrame, h0, hfin, ha, hfo, pongsOf, deliverEv, hgt, hu, sendClose]
-    · simp [interp, interp1, toP, handleFrame, handleDataFrame, h0, hfin, ha, hfo, pongsOf, deliverEv, hgt]
+    intro s ha hlen
+    simp [interp, interp1, toP, handleFrame_cont max cb s f ha h0 hlen, hfin, pongsOf, h0]
   | cont f acc rest h0 hfin _ ih =>
-    intro s ha hfo hlen
+    intro s ha hlen
     have hlen' : (s.fragBuf ++ f.payload).length ≤ max := by simp at hlen ⊢; omega
-    have hgt : ¬ max < s.fragBuf.length + f.payload.length := by simp at hlen; omega
-    have := ih { s with fragBuf := s.fragBuf ++ f.payload } ha hfo (by simpa [List.append_assoc] using hlen)
-    simp [interp, toP, interp1, handleFrame, handleDataFrame, h0, hfin, ha, pongsOf, hgt, List.append_assoc] at this ⊢
-    exact this
+    have := ih { s with fragBuf := s.fragBuf ++ f.payload } ha (by simpa [List.append_assoc] using hlen)
+    simp only [List.map_cons, interp, toP, interp1, handleFrame_cont max cb s f ha h0 hlen', hfin]
+    simp [this, pongsOf, h0, cleared, List.append_assoc]
   | ctl c acc rest hc _ ih =>
-    intro s ha hfo hlen
-    have := ih s ha hfo hlen
+    intro s ha hlen
+    have := ih s ha hlen
     rcases hc with hc | hc
     · simp only [List.map_cons, interp, toP, interp1, handleFrame, hc, pongsOf]
       simp [this]
     · simp only [List.map_cons, interp, toP, interp1, handleFrame, hc, pongsOf]
       simp [this]
+
+/-! ### message-level exactness -/
+
+/-- the frames of ONE message with opcode `op` (text 1 / binary 2) and payload `pl`: unfragmented, or a first fragment
+followed by a `Tail` (continuations, with pings/pongs in between) -/
+inductive IsMsg : Nat → Bytes → List Frame → Prop where
+  | single (f : Frame) : (f.opcode = 1 ∨ f.opcode = 2) → f.fin = true → IsMsg f.opcode f.payload [f]
+  | frag (f : Frame) (acc : Bytes) (rest : List Frame) : (f.opcode = 1 ∨ f.opcode = 2) → f.fin = false → Tail acc rest →
+      IsMsg f.opcode (f.payload ++ acc) (f :: rest)
+
+/-- a peer's frame sequence that carries the messages `ms` (in order): messages, pings/pongs between them, and
+optionally a final CLOSE -/
+inductive Msgs : List (Nat × Bytes) → List Frame → Prop where
+  | nil : Msgs [] []
+  | close (c : Frame) : c.opcode = 8 → Msgs [] [c]
+  | ctl (c : Frame) (ms : List (Nat × Bytes)) (fs : List Frame) : (c.opcode = 9 ∨ c.opcode = 10) → Msgs ms fs →
+      Msgs ms (c :: fs)
+  | msg (op : Nat) (pl : Bytes) (fsm : List Frame) (ms : List (Nat × Bytes)) (fs : List Frame) :
+      IsMsg op pl fsm → Msgs ms fs → Msgs ((op, pl) :: ms) (fsm ++ fs)
+
+/-- what the application must see for a message: a binary message as it is, a text message iff it is valid UTF-8 -/
+def deliveryOf : Nat × Bytes → Option Ev
+  | (op, pl) => if op = 1 then (if isValidUtf8 pl then some (.text pl) else none) else some (.binary pl)
+
+theorem deliver_msgs (cb : Cbs) (s : Sess) (op : Nat) (pl : Bytes) (hop : op = 1 ∨ op = 2) :
+    msgs (deliver cb s op pl).2 = (deliveryOf (op, pl)).toList := by
+  unfold deliver deliveryOf
+  rcases hop with h | h <;> subst h
+  · by_cases hu : isValidUtf8 pl = true
+    · simp only [hu, Bool.not_true, Bool.false_eq_true, ↓reduceIte, fire_msgs]
+      simp [msgs, isDelivery]
+    · simp [hu]
+  · simp only [show ¬ (2 : Nat) = 1 by omega, ↓reduceIte, fire_msgs]
+    simp [msgs, isDelivery]
+
+theorem deliver_keeps (cb : Cbs) (s : Sess) (op : Nat) (pl : Bytes) (ha : s.alive = true) (hf : s.fragBuf = []) :
+    (deliver cb s op pl).1.alive = true ∧ (deliver cb s op pl).1.fragBuf = [] := by
+  obtain ⟨h1, _, h3, _⟩ := deliver_same cb s op pl
+  exact ⟨by rw [h1]; exact ha, by rw [h3]; exact hf⟩
+
+/-- one whole message from a live session between messages: its deliveries, and the session is between messages again -/
+theorem isMsg_exact (max : Nat) (cb : Cbs) (op : Nat) (pl : Bytes) (fsm : List Frame) (hm : IsMsg op pl fsm)
+    (hfit : pl.length ≤ max) (s : Sess) (ha : s.alive = true) :
+    msgs (interp max cb s (fsm.map toP)).2 = (deliveryOf (op, pl)).toList ∧
+    (interp max cb s (fsm.map toP)).1.alive = true ∧ (interp max cb s (fsm.map toP)).1.fragBuf = [] := by
+  cases hm with
+  | single f hop hfin =>
+    have hk := deliver_keeps cb (cleared s) f.opcode f.payload (by simpa [cleared] using ha) rfl
+    simp only [List.map_cons, List.map_nil, interp, toP, interp1, handleFrame_start max cb s f ha hop hfit, hfin, ↓reduceIte,
+      List.append_nil]
+    exact ⟨deliver_msgs cb _ _ _ hop, hk.1, hk.2⟩
+  | frag f acc rest hop hfin ht =>
+    have hfl : f.payload.length ≤ max := by simp at hfit; omega
+    have hr := reassembly_tail max cb rest acc ht { s with fragOp := f.opcode, fragBuf := f.payload } ha hfit
+    have hk := deliver_keeps cb (cleared s) f.opcode (f.payload ++ acc) (by simpa [cleared] using ha) rfl
+    simp only [List.map_cons, interp, toP, interp1, handleFrame_start max cb s f ha hop hfl, hfin, Bool.false_eq_true,
+      ↓reduceIte, List.nil_append]
+    rw [hr]
+    have hc : cleared { s with fragOp := f.opcode, fragBuf := f.payload } = cleared s := rfl
+    simp only [hc]
+    refine ⟨?_, hk.1, hk.2⟩
+    rw [msgs_append, deliver_msgs cb _ _ _ hop]
+    have : msgs (pongsOf rest) = [] := by
+      clear hr ht hfit
+      induction rest with
+      | nil => rfl
+      | cons c cs ih => simp only [pongsOf, msgs_append, ih, List.append_nil]; split <;> simp [msgs, isDelivery]
+    rw [this]; rfl
+
+theorem handleFrame_ping (max : Nat) (cb : Cbs) (s : Sess) (f : Frame) (h : f.opcode = 9) :
+    handleFrame max cb s f = (s, [.sent (serialize (mkFrame 10 true f.payload))]) := by
+  simp [handleFrame, h]
+
+theorem handleFrame_pong (max : Nat) (cb : Cbs) (s : Sess) (f : Frame) (h : f.opcode = 10) :
+    handleFrame max cb s f = (s, []) := by
+  simp [handleFrame, h]
+
+theorem handleFrame_close_msgs (max : Nat) (cb : Cbs) (s : Sess) (f : Frame) (h : f.opcode = 8) :
+    msgs (handleFrame max cb s f).2 = [] := by
+  unfold handleFrame
+  rw [if_neg (by simp [h]), if_neg (by omega), if_neg (by omega), if_pos h]
+  simp only [msgs_append, fire_msgs]
+  split <;> simp [msgs, isDelivery]
+
+/-- **Message-level exactness.** From a live session between messages, the frames of a list of messages (each within
+the limit; unfragmented or fragmented, pings/pongs anywhere, an optional final CLOSE) deliver exactly those messages, in
+order, each once — text only if valid UTF-8. -/
+theorem msgs_exact (max : Nat) (cb : Cbs) : ∀ (ms : List (Nat × Bytes)) (fs : List Frame), Msgs ms fs →
+    (∀ m ∈ ms, m.2.length ≤ max) → ∀ (s : Sess), s.alive = true → s.fragBuf = [] →
+    msgs (interp max cb s (fs.map toP)).2 = ms.filterMap deliveryOf := by
+  intro ms fs h
+  induction h with
+  | nil => intro _ s _ _; rfl
+  | close c h8 =>
+    intro _ s ha _
+    simp only [List.map_cons, List.map_nil, interp, toP, interp1, List.append_nil]
+    exact handleFrame_close_msgs max cb s c h8
+  | ctl c ms fs hc _ ih =>
+    intro hfit s ha hf
+    have := ih hfit s ha hf
+    rcases hc with hc | hc
+    · simp only [List.map_cons, interp, toP, interp1, handleFrame_ping max cb s c hc, msgs_append, this]
+      simp [msgs, isDelivery]
+    · simp only [List.map_cons, interp, toP, interp1, handleFrame_pong max cb s c hc, msgs_append, this]
+      simp
+  | msg op pl fsm ms fs hm _ ih =>
+    intro hfit s ha hf
+    obtain ⟨e1, e2, e3⟩ := isMsg_exact max cb op pl fsm hm (hfit (op, pl) (List.mem_cons_self ..)) s ha
+    rw [List.map_append, interp_append]
+    simp only [msgs_append, e1]
+    rw [ih (fun m hm' => hfit m (List.mem_cons_of_mem _ hm')) _ e2 e3]
+    simp only [List.filterMap_cons]
+    cases deliveryOf (op, pl) <;> simp
 
 end Iora.Ws
